@@ -18,7 +18,7 @@ RULE = ('Each run = one closed-form ODE (exp, cos, gauss, xcos, rot2d, logistic,
         'a start time and a duration; integrated with 4-5 successively halved step sizes through the real DESolver. '
         'Non-trivial = at least two halvings with error above 1e-11 relative; distinct = distinct record digest; '
         'behaviour signature = (ode, iterator, schedule kind, t0 zero/non-zero).')
-ASSUMPTIONS = ['Observed order is the overall error slope over 3+ successive halvings with error above 1e-11; required: the finest usable error lies below some coarser error times (h ratio)^p with p=0.7 (Euler) / 3.25 (RK4); one-sided, robust to sign changes of the leading error constant.',
+ASSUMPTIONS = ['Observed order is the overall error slope over 3+ successive halvings with relative error above 1e-11 (Euler) / 1e-12 (RK4); required: the finest usable error lies below some coarser error times (h ratio)^p with p=0.7 (Euler) / 3.25 (RK4); one-sided, robust to sign changes of the leading error constant.',
                'Stage times are compared with 4 ulp tolerance.']
 COMPONENTS = {'real': ['kawin.solver.Iterators.ExplicitEulerIterator', 'kawin.solver.Iterators.RK4Iterator', 'kawin.solver.Solver.DESolver',
                        'kawin.GenericModel.GenericModel.solve'], 'stub': ['closed-form ODE probe model']}
@@ -29,7 +29,7 @@ AUTONOMOUS = {'exp', 'logistic'}
 
 def plan(tier):
     if tier == 'quick':
-        return dict(runs=480, batch=10, hard_timeout=300, soft_timeout=60)
+        return dict(runs=960, batch=10, hard_timeout=300, soft_timeout=60)
     return dict(runs=16000, batch=40, hard_timeout=900, soft_timeout=60)
 
 
@@ -172,7 +172,9 @@ def execute(rec):
             F.add('C06.end_time', f'run ended at {m.t!r}, expected {rec["t0"] + T!r}')
     # --- observed order: overall slope over the usable halvings, one-sided ("reaches its nominal order";
     # an apparent order above nominal happens when the leading error term changes sign and is no violation)
-    usable = [i for i, e in enumerate(errs) if e > 1e-11]
+    # (relative errors; the rounding floor of N <= 128 steps is ~1e-14, so 1e-12 keeps a factor 50+ above it and lets the fine grids,
+    # where a fourth-order method has left its pre-asymptotic regime, take part)
+    usable = [i for i, e in enumerate(errs) if e > (1e-12 if it == 'rk4' else 1e-11)]
     nontrivial = len(usable) >= 3 and usable == list(range(usable[0], usable[0] + len(usable)))
     nominal, pmin = (4.0, 3.25) if it == 'rk4' else (1.0, 0.7)
     if nontrivial:
@@ -202,7 +204,7 @@ def shrink_candidates(rec):
         if rec['p'][k] != v:
             r = copy.deepcopy(rec); r['p'][k] = v; yield r
     if len(rec['N']) > 3:
-        r = copy.deepcopy(rec); r['N'] = rec['N'][:-1]; yield r
+        # only the coarsest grid may be dropped: dropping fine grids would leave a pre-asymptotic window, where a slope below nominal proves nothing
         r = copy.deepcopy(rec); r['N'] = rec['N'][1:]; yield r
     pref = ['cos', 'exp', 'polyt', 'gauss', 'xcos', 'logistic', 'rot']
     for o in pref[:pref.index(rec['ode'])]:
